@@ -169,6 +169,10 @@ def oracle_term(scalars):
     """Coq `oracle` for a set of (tag, text) pairs."""
     ents = []
     for tag, text in sorted(scalars):
+        if tag == '!Path':
+            # pathlib normalises its argument; the model's PathConstructor looks the normal form up here
+            ents.append(f'(({coq_ustr(tag)}, {coq_ustr(text)}), Ok (VStr {coq_ustr(str(pathlib.Path(text)))}))')
+            continue
         kind, x = construct_scalar(tag, text)
         if kind == 'ok':
             try:
